@@ -67,8 +67,17 @@ func basisMat(i int) mat.Matrix4x4 {
 	return mat.Matrix4x4{a[0], a[1], a[2], a[3], a[4], a[5], a[6], a[7], a[8], a[9], a[10], a[11], a[12], a[13], a[14], a[15]}
 }
 
+// NaN results (singular structured matrices) are compared as "a NaN": the model prints the canonical quiet NaN
+// whatever sign/payload the hardware produced, so the implementation side is canonicalised the same way
+func cn(x float64) float64 {
+	if x != x {
+		return math.Float64frombits(0x7ff8000000000000)
+	}
+	return x
+}
+
 func mF(m mat.Matrix4x4) string {
-	return Fs(m.X00, m.X01, m.X02, m.X03, m.X10, m.X11, m.X12, m.X13, m.X20, m.X21, m.X22, m.X23, m.X30, m.X31, m.X32, m.X33)
+	return Fs(cn(m.X00), cn(m.X01), cn(m.X02), cn(m.X03), cn(m.X10), cn(m.X11), cn(m.X12), cn(m.X13), cn(m.X20), cn(m.X21), cn(m.X22), cn(m.X23), cn(m.X30), cn(m.X31), cn(m.X32), cn(m.X33))
 }
 func qF(q quaternion.Quaternion) string { return Fs(q.Dir().X(), q.Dir().Y(), q.Dir().Z(), q.W()) }
 func bbF(b geometry.AABB) string {
